@@ -183,7 +183,9 @@ Consume ==
            LET s1 == P!SetDummy(s, SetOf(e.hand))
                c == AllFails(Observed(e, s1))
            IN IF c = "" THEN Good([cur EXCEPT ![e.o] = s1])
-              ELSE Bad(e, "setdummy:o=obs:fail=" \o c)
+              ELSE Soft(e, "setdummy:o=obs:fail=" \o c,
+                        {"setdummy." \o x : x \in FailSet(Observed(e, s1))},
+                        [cur EXCEPT ![e.o] = s1])
         ELSE IF e.ev = "avail" THEN
            LET hand == IF e.kind = "cur" THEN SetOf(e.hand)
                        ELSE IF e.kind = "hand" THEN s.hands[e.seat]
